@@ -1743,6 +1743,8 @@ pub fn run_c15(o: &Opts) -> Report {
             }
         }
     }
+    // empty truth / budget brackets written out, every position and format, both parsers (see lexprops::empty_bracket_texts)
+    crate::lexprops::c15_empty_brackets(cx.rep, &mut cx.lcases, &mut cx.ldescr);
     let cases = std::mem::take(&mut cx.cases);
     let lcases = std::mem::take(&mut cx.lcases);
     let ldescr = std::mem::take(&mut cx.ldescr);
